@@ -216,7 +216,10 @@ class Check:
                     sym.CUR[0] = None
             try:
                 sym.CUR[0] = sym.PathCtx([])
-                for cl in (c.cross(cfg, [(cx, getattr(cx, "inputs", None), out) for cx, out in paths]) or []):
+                # cross-path clauses (reachability of outcomes, completeness over all paths) only make sense when every path was executed:
+                # a path that left the verifier's subset makes them undecidable, never a violation
+                complete = not any(out[0] == "unsupported" for cx, out in paths)
+                for cl in ((c.cross(cfg, [(cx, getattr(cx, "inputs", None), out) for cx, out in paths]) or []) if complete else []):
                     nm, hy, goal = cl[0], cl[1], cl[2]
                     tac = cl[3] if len(cl) > 3 else ()
                     self.obls.append(Obl(f"{tag}.cross.{nm}", list(hy), goal, kind="post", contract=c, cfg=cfg, clause=f"{tag}.cross.{nm}", tactics=tac))
